@@ -239,6 +239,8 @@ def modify_rules(ctx, m, with_typestate=True):
     # K1/K3 of the re-queue key: C01's key rules on the whole-operation view of modify_order
     from .c01 import key_write_rules
     n_key = key_write_rules(ctx, m, [f], k1="replace", k3="replace")
+    from .c01 import fresh_stamp_rules
+    fresh_stamp_rules(ctx, m, [f], rule="replace-fresh-stamp")
     ctx.check(n_key >= 1, "replace", "fresh-key", ctx.loc(f), "%d key rebuild(s) in the whole-operation view of modify_order" % n_key)
     # identity fields untouched
     tws = [t_[0] for t_ in m.trade_writers()]
